@@ -23,6 +23,11 @@ type Violation struct {
 	Seed     uint64   `json:"seed"`
 	Index    int      `json:"index"`
 	Engine   int      `json:"engine"`
+	// Prelude (C15): the histories that ran before this one on other containers of the same generated type
+	// in the same process. A violation that does not show when the history runs alone in a fresh process is
+	// replayed after them: state shared between the containers of one process is a defect of its own
+	// ("nothing of the first container may carry over").
+	Prelude [][]Op `json:"prelude,omitempty"`
 }
 
 type Stats struct {
